@@ -7,11 +7,14 @@
      lits_of pv ds       the fixed cells of the clause pv are exactly the decisions ds
      is_path b pv        pv is the clause of a root-to-1 path of b
      diverges_with c ds ds'   ds and ds' share a prefix after which ds takes branch c and ds' the other one
-     none_iff_false b o  the call o returns (no panic) and its result is None iff is_false b iff b is a contradiction *)
+     none_iff_false b o  the call o returns (no panic) and its result is None iff is_false b iff b is a contradiction
+     Benign b            valid NON-REDUCED diagrams of the library's storage habits (section 5): wf b, no decision node with
+                         two zero links (nz), children stored before parents (topo), root last and every decision node
+                         reachable from it (all_reachable); redundant tests and duplicated nodes allowed; checker benignb *)
 From Coq Require Import List NArith Bool. Import ListNotations.
 From BddVerif Require Import Model.Bdd Model.Apply Model.Ops Model.Select Proofs.Sem Proofs.Canon Proofs.Reflect
   Proofs.SelectBase Proofs.SelectWalk Proofs.SelectWitness Proofs.SelectPred Proofs.SelectDP Proofs.SelectDPVal
-  Proofs.SelectAll Proofs.SelectNec.
+  Proofs.SelectAll Proofs.SelectNec Proofs.SelectBenign.
 Open Scope N_scope.
 
 (* 1. every selector terminates without panic and returns None exactly on a contradiction (all RNG scripts) *)
@@ -138,3 +141,166 @@ Example C11_example_values :
   is_clause ex_b = Ok false /\ is_valuation ex_b = Ok false.
 Proof. vm_compute. repeat split. Qed.
 Print Assumptions C11_example_values.
+
+(* ======================================================================================================== *)
+(* 5. non-reduced diagrams of the benign shape: every statement above holds with `Canonical b` replaced by `Benign b`
+      (the proofs of Proofs/Select*.v are carried out for Benign; the Canonical versions are corollaries)          *)
+Theorem C11_benignb_iff : forall b, benignb b = true <-> Benign b.
+Proof. exact benignb_iff. Qed.
+Print Assumptions C11_benignb_iff.
+
+Theorem C11_benign_unfold : forall b, Benign b <->
+  wf b /\
+  (forall p, 2 <= p -> p < size b -> ~ (nlow (get b p) = 0 /\ nhigh (get b p) = 0)) /\
+  (forall p, 2 <= p -> p < size b -> nlow (get b p) < p /\ nhigh (get b p) < p) /\
+  (forall p, 2 <= p -> p < size b -> exists ds, path b (root b) ds p).
+Proof. exact (fun b => conj (fun H => H) (fun H => H)). Qed.
+Print Assumptions C11_benign_unfold.
+
+Theorem C11_canonical_is_benign : forall b, Canonical b -> Benign b.
+Proof. exact canonical_benign. Qed.
+Print Assumptions C11_canonical_is_benign.
+
+(* a benign diagram is one of the two constants or has a decision node *)
+Theorem C11_benign_shape : forall b, Benign b -> b = mk_false (nvars b) \/ b = mk_true (nvars b) \/ 3 <= size b.
+Proof. exact benign_shape. Qed.
+Print Assumptions C11_benign_shape.
+
+Theorem C11_none_iff_false_benign : forall b, Benign b ->
+  none_iff_false b (sat_witness b) /\ none_iff_false b (first_valuation b) /\ none_iff_false b (last_valuation b) /\
+  none_iff_false b (most_positive_valuation b) /\ none_iff_false b (most_negative_valuation b) /\
+  none_iff_false b (first_clause b) /\ none_iff_false b (last_clause b) /\
+  none_iff_false b (most_fixed_clause b) /\ none_iff_false b (most_free_clause b) /\
+  none_iff_false b (necessary_clause b) /\
+  (forall script, none_iff_false b (random_valuation b script)) /\
+  (forall script, none_iff_false b (random_clause b script)).
+Proof. exact all_none_iff_false_benign. Qed.
+Print Assumptions C11_none_iff_false_benign.
+
+(* is_false (node count = 1) stays exact: a benign diagram with a decision node is satisfiable *)
+Theorem C11_is_false_exact_benign : forall b, Benign b -> (is_false b = true <-> forall v, eval b v = false).
+Proof. exact is_false_correct_benign. Qed.
+Print Assumptions C11_is_false_exact_benign.
+
+Theorem C11_first_valuation_sat_least_benign : forall b, Benign b -> is_false b = false ->
+  exists l, first_valuation b = Ok (Some l) /\ sat_list b l /\ forall l', sat_list b l' -> lex_le l l'.
+Proof. exact first_valuation_spec_benign. Qed.
+Print Assumptions C11_first_valuation_sat_least_benign.
+
+Theorem C11_last_valuation_sat_greatest_benign : forall b, Benign b -> is_false b = false ->
+  exists l, last_valuation b = Ok (Some l) /\ sat_list b l /\ forall l', sat_list b l' -> lex_le l' l.
+Proof. exact last_valuation_spec_benign. Qed.
+Print Assumptions C11_last_valuation_sat_greatest_benign.
+
+Theorem C11_sat_witness_sat_benign : forall b, Benign b -> is_false b = false ->
+  exists l, sat_witness b = Ok (Some l) /\ sat_list b l.
+Proof. exact sat_witness_spec_benign. Qed.
+Print Assumptions C11_sat_witness_sat_benign.
+
+Theorem C11_random_valuation_sat_benign : forall b script, Benign b -> is_false b = false ->
+  exists l, random_valuation b script = Ok (Some l) /\ sat_list b l.
+Proof. exact random_valuation_spec_benign. Qed.
+Print Assumptions C11_random_valuation_sat_benign.
+
+Theorem C11_first_clause_is_path_benign : forall b, Benign b -> is_false b = false ->
+  exists pv ds, first_clause b = Ok (Some pv) /\ path b (root b) ds 1 /\ lits_of pv ds /\
+    forall ds', path b (root b) ds' 1 -> ds' = ds \/ diverges_with false ds ds'.
+Proof. exact first_clause_spec_benign. Qed.
+Print Assumptions C11_first_clause_is_path_benign.
+
+Theorem C11_last_clause_is_path_benign : forall b, Benign b -> is_false b = false ->
+  exists pv ds, last_clause b = Ok (Some pv) /\ path b (root b) ds 1 /\ lits_of pv ds /\
+    forall ds', path b (root b) ds' 1 -> ds' = ds \/ diverges_with true ds ds'.
+Proof. exact last_clause_spec_benign. Qed.
+Print Assumptions C11_last_clause_is_path_benign.
+
+Theorem C11_random_clause_is_path_benign : forall b script, Benign b -> is_false b = false ->
+  exists pv, random_clause b script = Ok (Some pv) /\ is_path b pv.
+Proof. exact random_clause_spec_benign. Qed.
+Print Assumptions C11_random_clause_is_path_benign.
+
+(* the key fact only needs: no decision node with two zero links *)
+Theorem C11_nonzero_satisfiable_benign : forall b p, wf b -> nz b -> valid b p -> p <> 0 -> exists v, sem b p v = true.
+Proof. exact nonzero_sat_benign. Qed.
+Print Assumptions C11_nonzero_satisfiable_benign.
+
+(* is_clause still decides "exactly one root-to-1 path" ... *)
+Theorem C11_is_clause_iff_benign : forall b, Benign b ->
+  exists r, is_clause b = Ok r /\ (r = true <-> unique_path b (root b)).
+Proof. exact is_clause_iff_benign. Qed.
+Print Assumptions C11_is_clause_iff_benign.
+
+(* ... which on a non-reduced diagram is no longer "the function is a single cube": x0 with a redundant test of x1 below
+   it is one cube with two paths, and is_clause answers false *)
+Theorem C11_is_clause_benign_refuted :
+  exists b, Benign b /\ is_clause b = Ok false /\ is_cube b /\
+    (exists ds1 ds2, path b (root b) ds1 1 /\ path b (root b) ds2 1 /\ ds1 <> ds2).
+Proof. exact is_clause_benign_refuted. Qed.
+Print Assumptions C11_is_clause_benign_refuted.
+
+Theorem C11_is_valuation_iff_benign : forall b, Benign b ->
+  exists r, is_valuation b = Ok r /\ (r = true <-> unique_sat_list b).
+Proof. exact is_valuation_iff_benign. Qed.
+Print Assumptions C11_is_valuation_iff_benign.
+
+Theorem C11_most_positive_spec_benign : forall b, Benign b -> is_false b = false ->
+  exists l, most_positive_valuation b = Ok (Some l) /\ sat_list b l /\
+    (forall l', sat_list b l' -> count_pol true l' <= count_pol true l) /\
+    (forall l', sat_list b l' -> count_pol true l' = count_pol true l -> lex_le l l').
+Proof. exact most_positive_spec_benign. Qed.
+Print Assumptions C11_most_positive_spec_benign.
+
+Theorem C11_most_negative_spec_benign : forall b, Benign b -> is_false b = false ->
+  exists l, most_negative_valuation b = Ok (Some l) /\ sat_list b l /\
+    (forall l', sat_list b l' -> count_pol false l' <= count_pol false l) /\
+    (forall l', sat_list b l' -> count_pol false l' = count_pol false l -> lex_le l l').
+Proof. exact most_negative_spec_benign. Qed.
+Print Assumptions C11_most_negative_spec_benign.
+
+Theorem C11_most_fixed_clause_spec_benign : forall b, Benign b -> is_false b = false ->
+  exists pv ds, most_fixed_clause b = Ok (Some pv) /\ path b (root b) ds 1 /\ lits_of pv ds /\
+    forall ds', path b (root b) ds' 1 -> (length ds' <= length ds)%nat.
+Proof. exact most_fixed_clause_spec_benign. Qed.
+Print Assumptions C11_most_fixed_clause_spec_benign.
+
+Theorem C11_most_free_clause_spec_benign : forall b, Benign b -> is_false b = false ->
+  exists pv ds, most_free_clause b = Ok (Some pv) /\ path b (root b) ds 1 /\ lits_of pv ds /\
+    forall ds', path b (root b) ds' 1 -> (length ds <= length ds')%nat.
+Proof. exact most_free_clause_spec_benign. Qed.
+Print Assumptions C11_most_free_clause_spec_benign.
+
+Theorem C11_necessary_clause_spec_benign : forall b, Benign b -> is_false b = false ->
+  exists pv, necessary_clause b = Ok (Some pv) /\
+    forall x c, pv_get pv x = Some c <-> (x < nvars b /\ forall v, eval b v = true -> v x = c).
+Proof. exact necessary_clause_spec_benign. Qed.
+Print Assumptions C11_necessary_clause_spec_benign.
+
+Theorem C11_necessary_clause_no_panic_benign : forall b, Benign b -> exists r, necessary_clause b = Ok r.
+Proof. exact necessary_clause_no_panic_benign. Qed.
+Print Assumptions C11_necessary_clause_no_panic_benign.
+
+(* the class is strictly larger than the canonical diagrams: ex_b with a redundant test of x3 spliced into the edge
+   (x2) -high-> 1 is benign, not reduced, and the selectors return the same members as on ex_b (the clause selectors
+   additionally report the redundant decision they walk through) *)
+Definition ex_nr : bdd := [mkNode 4 0 0; mkNode 4 1 1; mkNode 3 1 1; mkNode 2 0 2; mkNode 1 1 0; mkNode 0 4 3].
+Example C11_benign_nonvacuous :
+  benignb ex_nr = true /\ reducedb ex_nr = false /\ canonicalb ex_nr = false /\
+  (forall v, eval ex_nr v = eval ex_b v) /\
+  first_valuation ex_nr = Ok (Some [false; false; false; false]) /\
+  last_valuation ex_nr = Ok (Some [true; true; true; true]) /\
+  sat_witness ex_nr = Ok (Some [true; false; true; false]) /\
+  most_positive_valuation ex_nr = Ok (Some [true; true; true; true]) /\
+  most_negative_valuation ex_nr = Ok (Some [false; false; false; false]) /\
+  first_clause ex_nr = Ok (Some [Some false; Some false]) /\
+  last_clause ex_nr = Ok (Some [Some true; None; Some true; Some true]) /\
+  most_fixed_clause ex_nr = Ok (Some [Some true; None; Some true; Some false]) /\
+  most_free_clause ex_nr = Ok (Some [Some false; Some false]) /\
+  necessary_clause ex_nr = Ok (Some []) /\
+  random_valuation ex_nr [false; true] = Ok (Some [false; false; true; true]) /\
+  is_clause ex_nr = Ok false /\ is_valuation ex_nr = Ok false.
+Proof.
+  split; [vm_compute; reflexivity|]. split; [vm_compute; reflexivity|]. split; [vm_compute; reflexivity|].
+  split; [|vm_compute; repeat split].
+  exact ex_benign_same_function.
+Qed.
+Print Assumptions C11_benign_nonvacuous.
